@@ -77,6 +77,8 @@ struct RunOut {
     divergences: u64,
     draws: u64,
     momentum_flags: Vec<Flag>,
+    /// largest mean number of leapfrogs per draw over the chains of the run
+    max_mean_steps: f64,
 }
 
 fn batch_se(per_chain: &[Vec<f64>]) -> (f64, f64) {
@@ -97,6 +99,8 @@ fn batch_se(per_chain: &[Vec<f64>]) -> (f64, f64) {
     (m, se)
 }
 
+const LEAPFROG_BUDGET_PER_DRAW: u64 = 300;
+
 fn run_config(c: &Cfg, seed: u64, n_chains: usize, draws: usize, observe_momentum: bool) -> Result<RunOut, String> {
     let mut rng = HRng::new(seed).fork(c.idx);
     let target = make_target(c, &mut rng);
@@ -113,6 +117,7 @@ fn run_config(c: &Cfg, seed: u64, n_chains: usize, draws: usize, observe_momentu
     let mut gauss: Vec<Vec<f64>> = vec![];
     let mut prev_white: Vec<Vec<f64>> = vec![];
     let mut zero_refresh_draws = 0u64;
+    let mut max_mean_steps: f64 = 0.0;
     for ch in 0..n_chains {
         let mut math = ScriptMath::new(Logged::new(target.clone(), false));
         math.log.record_gaussian = observe_momentum && ch == 0;
@@ -120,9 +125,23 @@ fn run_config(c: &Cfg, seed: u64, n_chains: usize, draws: usize, observe_momentu
         let start = start_point(&target, &mut rng);
         chain.set_position(&start).map_err(|e| format!("set_position: {e}"))?;
         let mut xs = vec![Vec::with_capacity(draws); d];
+        // leapfrog budget of a chain: a mean of LEAPFROG_BUDGET_PER_DRAW steps per draw over the whole run. The
+        // unchanged code stays far below it on every configuration (the largest mean seen is reported as
+        // `max_mean_leapfrogs_per_draw`); a change that sends every tree to maxdepth would otherwise turn the quick
+        // tier into hours. A chain that runs out is cut short: fewer than 100 post-warmup draws make the whole
+        // configuration inconclusive, otherwise the (batch-means) tests run on what was drawn.
+        let budget = LEAPFROG_BUDGET_PER_DRAW * (num_tune + draws) as u64;
+        let mut steps_total = 0u64;
         for dd in 0..(num_tune + draws) {
+            if steps_total > budget {
+                if dd < num_tune + 100 {
+                    return Err(format!("leapfrog budget exhausted after {dd} draws ({steps_total} leapfrogs)"));
+                }
+                break;
+            }
             let white_before = if observe_momentum && ch == 0 && dd >= num_tune { chain.state_parts().map(|p| p.transformed_position) } else { None };
             let o = chain.draw().map_err(|e| format!("draw {dd}: {e}"))?;
+            steps_total += o.progress.num_steps;
             if dd >= num_tune {
                 if o.progress.diverging {
                     divergences += 1;
@@ -146,7 +165,15 @@ fn run_config(c: &Cfg, seed: u64, n_chains: usize, draws: usize, observe_momentu
                 }
             }
         }
+        max_mean_steps = max_mean_steps.max(steps_total as f64 / (num_tune + xs[0].len()).max(1) as f64);
         chains_x.push(xs);
+    }
+    // chains cut short by the budget: compare equally long series
+    let n_min = chains_x.iter().map(|c| c.first().map(|v| v.len()).unwrap_or(0)).min().unwrap_or(0);
+    for c in chains_x.iter_mut() {
+        for v in c.iter_mut() {
+            v.truncate(n_min);
+        }
     }
     let mut flags = vec![];
     let mut n_tests = 0;
@@ -229,7 +256,7 @@ fn run_config(c: &Cfg, seed: u64, n_chains: usize, draws: usize, observe_momentu
             }
         }
     }
-    Ok(RunOut { flags, n_tests, max_abs_z, divergences, draws: (n_chains * draws) as u64, momentum_flags })
+    Ok(RunOut { flags, n_tests, max_abs_z, divergences, draws: (n_chains * n_min) as u64, momentum_flags, max_mean_steps })
 }
 
 pub fn run(args: &Args, report: &mut Report) {
@@ -268,6 +295,10 @@ pub fn run(args: &Args, report: &mut Report) {
                 rep.violation(format!("C04:{tag}:panic:{}", panic_site(&p)), p, replay);
                 return;
             }
+            Ok(Err(e)) if e.starts_with("leapfrog budget exhausted") => {
+                rep.inconclusive("leapfrog budget exhausted before 100 post-warmup draws");
+                return;
+            }
             Ok(Err(e)) => {
                 rep.violation(format!("C04:{tag}:chain_error"), e, replay);
                 return;
@@ -280,6 +311,12 @@ pub fn run(args: &Args, report: &mut Report) {
         rep.count("post_warmup_draws", out.draws);
         rep.count("moment_and_quantile_tests", out.n_tests);
         rep.count("post_warmup_divergences", out.divergences);
+        {
+            let e = rep.extra.entry("max_mean_leapfrogs_per_draw".to_string()).or_insert(json!(0.0));
+            if out.max_mean_steps > e.as_f64().unwrap_or(0.0) {
+                *e = json!(out.max_mean_steps);
+            }
+        }
         let e = rep.extra.entry("max_abs_z".to_string()).or_insert(json!(0.0));
         if out.max_abs_z > e.as_f64().unwrap_or(0.0) {
             *e = json!(out.max_abs_z);
